@@ -486,6 +486,9 @@ def scenarios(prop, count, seed):
         n = sc["cfg"]["n"]
         hrn["prep"] = rng.choice([0, 0, 0, 1, 2, 3, 4])
         hrn["emptymsg"] = rng.random() < 0.3
+        # now and then the caller cancels the whole run from outside
+        if rng.random() < {"C11": 0.15, "C13": 0.08, "C05": 0.05}.get(prop, 0.03):
+            sc["cfg"]["ucancel"] = rng.choice([0, 1, 1, 2, 3])
         if prop in ("C06", "C03", "C14") and rng.random() < 0.2:
             hrn["verbose"] = True
         if rng.random() < stall_p:
